@@ -241,8 +241,8 @@ def meta_case(draw, tier):
 
 
 SUBCHECKS = [
-    SubCheck("history", body_history, kind="machine", machine=machine, steps=8, quick=5000, thorough=150000, shards_quick=12,
+    SubCheck("history", body_history, kind="machine", machine=machine, steps=8, quick=5000, thorough=500000, shards_quick=12,
              doc="rule-based state machine: count(batch) sequences vs collections.Counter-style model, read back after every batch"),
-    SubCheck("metamorphic", body_meta, meta_case, quick=5000, thorough=200000, shards_quick=4,
+    SubCheck("metamorphic", body_meta, meta_case, quick=5000, thorough=600000, shards_quick=4,
              doc="same sample multiset under another modulus / permuted / split into batches differently -> identical totals"),
 ]
